@@ -116,7 +116,7 @@ def run(tier):
     chk.cov["model_terminal_states"] = sum(len(v) for v in terms.values())
     # 2. real runs
     cases = SC.all_cases(shapes, None if thorough else 14, rnd)
-    nsched = 10 if thorough else 3
+    nsched = 14 if thorough else 4
     runs = SC.run_real(cases, nsched, chk.scratch, chk.seed + 7)
     results, tl = SC.validate_traces("c02" + tier, shapes, runs, fixobs=FIXOBS)
     for t in tl:
@@ -174,7 +174,7 @@ def replay(path):
         chk.evaluated(("m",)); chk.evaluated(("m2",))
         return chk.finish()
     seed_, bm, eb, cw = d["sched"]
-    h = ctl.run_case(d["shape"], d["oa"], chk.scratch, ctl.RandomPolicy(seed_, burst_max=bm, env_bias=eb, ctrl_weight=cw))
+    h = ctl.run_case(d["shape"], d["oa"], chk.scratch, ctl.RandomPolicy(seed_, burst_max=abs(bm), env_bias=eb, ctrl_weight=cw, eager_internal=bm < 0))
     for e in h.trace:
         print(e["ev"], e["arg"], e["calls"], {k: v["cs"] for k, v in e["st"]["comps"].items()})
     print("final:", {k: v["cs"] for k, v in h.final["comps"].items()}, h.final["verdict"], "stuck:", h.stuck)
